@@ -19,8 +19,11 @@ SPEC = dict(
     harness=['h_tree.c'], cflags=['-DVF_TREE_RBT'],
     configs=lambda tier: [dict(name='packed'), dict(name='unpacked', cflags=['-DA_SIZE_POINTER=1']), dict(name='clang', libcc='clang'), dict(name='o2', libflavour='san-o2', libdrop=['-fno-strict-aliasing']),
                           dict(name='unpacked-uchar', cflags=['-DA_SIZE_POINTER=1', '-funsigned-char', '-funsigned-bitfields'])] +
-                         [dict(name='minalign', cflags=['-fno-sanitize=alignment'], hflags=['-DVF_MINALIGN=%d' % n]) for n in _minalign('rbt.h')],
-    parallel_configs=6,
+                         [dict(name='minalign', cflags=['-fno-sanitize=alignment'], hflags=['-DVF_MINALIGN=%d' % n]) for n in _minalign('rbt.h')] +
+                         # trees taller than 32 levels (h_tree_deep.c): UBSan-only optimised build, two workers of their own (not a share of the 12)
+                         [dict(name='deep', harness=['h_tree_deep.c'], hflags=['-DVF_TREE_RBT'], flavour='ubsan', nworkers=2),
+                          dict(name='deep-unpacked', harness=['h_tree_deep.c'], hflags=['-DVF_TREE_RBT'], cflags=['-DA_SIZE_POINTER=1'], flavour='ubsan', nworkers=2)],
+    parallel_configs=8,
     workers={'quick': 12, 'thorough': 16},
     level='exploration',
     rule='(1) every coloured red-black shape reachable through the real library with <= N nodes (N=12 quick, 16 thorough) is enumerated by a fixpoint over '
@@ -28,19 +31,28 @@ SPEC = dict(
          'lookup is executed through the library and followed by the invariant walker (BST order, black root, no red-red edge, equal black height on every path, parent '
          'links, node identity, element set == model) - because the code only compares keys this is every (state, operation) pair of every '
          'history whose tree stays within N nodes. (2) seeded random/adversarial histories (9 patterns, key spaces 8..4096, a_rbt_insert and the '
-         'manual link + a_rbt_insert_adjust path) with the walker after every call. Both node layouts are built and driven: the packed parent/meta word (default on this platform) and the separate-member layout (-DA_SIZE_POINTER=1; N-2 in quick). distinct_nontrivial = number of distinct canonical '
-         '(structure + colours) trees on which the walker ran after an operation.',
+         'manual link + a_rbt_insert_adjust path) with the walker after every call. Both node layouts are built and driven: the packed parent/meta word (default on this platform) and the separate-member layout (-DA_SIZE_POINTER=1; N-2 in quick). '
+         '(3) configurations deep / deep-unpacked (h_tree_deep.c): trees TALLER THAN 32 LEVELS - 2^21..2^21+2^19 (quick) / 2^23..2^23+2^21 (thorough) keys inserted in ascending, descending and outside-in order (40-45 levels, black height 20-23) and 2^20 / 2^21 keys in random order (about 25 levels), through a_rbt_insert or manual link + a_rbt_insert_adjust, into one malloc block; '
+         'a full O(n) walker judges the built tree, then 240 (quick) / 600 (thorough) logged operations per tree - remove and re-insert the deepest leaf, inserts below the deepest leaves, removal of the lowest leaves (the all-black side: the recolouring climbs the whole black height), of the root, of the minimum/maximum and of random elements, duplicate inserts, lookups - '
+         'are each judged at once by a region check along the search paths of the touched keys (order, colours, no red-red edge, equal black height, parent links, black root, element count from cached subtree sizes; untouched subtrees enter with the black heights cached by the last walk), and by the full walker after the first operations, every 6th (quick) / 10th (thorough) operation and at the end. '
+         'distinct_nontrivial = number of distinct canonical (structure + colours) trees on which the walker ran after an operation (deep configurations: distinct touched regions - node identities, links and colours along the checked paths).',
     exhaustive={'quick': 'all (shape, operation) pairs for reachable red-black shapes with <= 12 nodes',
                 'thorough': 'all (shape, operation) pairs for reachable red-black shapes with <= 16 nodes'},
     require=['walker-runs', 'bfs-insert-transitions', 'bfs-remove-transitions', 'dup-insert-returns-resident', 'dup-insert-of-resident-object',
-             'insert-returns-null-for-new-key', 'search-agrees-with-model'],
+             'insert-returns-null-for-new-key', 'search-agrees-with-model',
+             # configurations deep*: a tree above 32 levels was built and judged; inserts / removals / lookups 33 or more levels down were judged
+             'deep-build-judged', 'deep-tree-height-above-32', 'deep-full-walks', 'deep-insert-judged', 'deep-remove-judged', 'deep-dup-insert-judged', 'deep-search-judged',
+             'deep-insert-descends-33-or-more-levels', 'deep-remove-33-or-more-levels-down', 'deep-search-descends-33-or-more-levels'],
     cov_files=['rbt.c'], cov_funcs=r'^a_rbt_(?!head|tail|next|prev|pre_|post_|tear)', cov_cases=120,
     assumptions=_COMMON + ['the three A_ASSUME() in a_rbt_remove_adjust compile to __builtin_unreachable under gcc 12, which UBSan traps', 'removed nodes are free()d immediately, so a stale link is reported by ASan as use-after-free',
-                           'shapes above N nodes are sampled by the random histories only'],
+                           'shapes above N nodes are sampled by the random histories (up to 4096 nodes) and by the 2^21-2^23 key fills of the configurations deep* only'],
     level_text='Bounded-exhaustive over tree shapes (every reachable coloured shape up to N nodes x every possible single operation, executed through the '
                'real code and judged by a structural walker + sorted-array model after every call) plus long random/adversarial histories up to 4096 '
                'nodes. Exhaustive-in-the-small is the right level: rebalancing cases depend only on local shape, and all of them occur below ~12 nodes.',
     level_note='trusted: the harness walker/model; shapes are re-materialised by cloning library-produced structures through the public node fields; '
-               'the unpacked node layout is built with -DA_SIZE_POINTER=1 on this 64-bit host (pointers stay 8 bytes wide)',
-    technique='bounded-exhaustive shape enumeration + random histories in both node layouts, invariant walker and reference model after every call, comparators of arbitrary magnitude, ASan/UBSan',
+               'the unpacked node layout is built with -DA_SIZE_POINTER=1 on this 64-bit host (pointers stay 8 bytes wide); '
+               'the configurations deep* are built -O2 with UBSan only (which still traps the A_ASSUME()s): a removed node is overwritten with 0xEE instead of freed and a stale link is found by the walkers (node not in the model / link outside the block), '
+               'between two full walks the subtrees hanging off the checked paths are trusted to be unchanged; heights above 45 levels and black heights above 23 are not reached',
+    technique='bounded-exhaustive shape enumeration + random histories in both node layouts, invariant walker and reference model after every call, comparators of arbitrary magnitude, ASan/UBSan; '
+              'sorted-order fills of 2^21-2^23 keys (39-45 levels) through the library with incremental + full invariant walks (UBSan)',
 )
